@@ -263,6 +263,150 @@ def build_thrift_sem(tier="quick", cfgs=("k0", "k1")):
     return {"bin": os.path.join(GEN_TARGET, "debug", "genharness_tsem"), "info": info}
 
 
+
+def snake(name):
+    out = []
+    for i, c in enumerate(name):
+        if c.isupper() and i > 0 and (name[i - 1].islower() or name[i - 1].isdigit() or (i + 1 < len(name) and name[i + 1].islower() and name[i - 1].isupper())):
+            out.append("_")
+        out.append(c.lower())
+    return "".join(out)
+
+
+def upper_camel(name):
+    return "".join(p[:1].upper() + p[1:] for p in name.split("_") if p)
+
+
+def pb_rust_path(module, package, fq):
+    """crate path of the generated type of proto name `fq` (package-qualified)"""
+    rest = fq[len(package) + 1:] if package and fq.startswith(package + ".") else fq
+    parts = rest.split(".")
+    mods = package.split(".") if package else []
+    mods += [snake(x) for x in parts[:-1]]
+    return "crate::gen::%s::r#gen::%s" % (module, "::".join(mods + [parts[-1]]))
+
+
+def pb_access_src(module, d, packages):
+    """field read-out impls for every message / enum / oneof of document `d` (schema dict)"""
+    out = []
+
+    def pkg_of(fq):
+        best = ""
+        for p in packages:
+            if fq.startswith(p + ".") and len(p) > len(best):
+                best = p
+        return best
+
+    def path(fq):
+        return pb_rust_path(module, pkg_of(fq), fq)
+
+    for efq in d["enums"]:
+        out.append("impl harness::Scalar for %s { fn ps(&self) -> PS { PS::I(i32::from(self.clone()) as i64) } }" % path(efq))
+    for m in d["messages"]:
+        mp = path(m["fq"])
+        body = []
+        groups = {}
+        for f in m["fields"]:
+            n, name, lab = f["num"], f["name"], f["label"]
+            if lab == "oneof":
+                groups.setdefault(f["oneof"], []).append(f)
+            elif (lab == "singular" and f["ty"] != "message") or lab == "required":
+                body.append("ops::one(&mut m, %d, &self.%s);" % (n, name))
+            elif lab in ("singular", "optional"):
+                body.append("ops::opt(&mut m, %d, &self.%s);" % (n, name))
+            elif lab == "repeated":
+                body.append("ops::rep(&mut m, %d, &self.%s);" % (n, name))
+            elif lab == "map":
+                body.append("ops::map(&mut m, %d, self.%s.iter());" % (n, name))
+        for g, members in groups.items():
+            body.append("if let Some(x) = &self.%s { harness::OneofPut::put(x, &mut m); }" % g)
+            parts = m["fq"].rsplit(".", 1)
+            ep = path(m["fq"]).rsplit("::", 1)[0] + "::" + snake(m["name"]) + "::" + upper_camel(g)
+            arms = "\n".join("            %s::%s(x) => m.0.push((%d, PF::One(x.ps())))," % (ep, upper_camel(f["name"]), f["num"]) for f in members)
+            out.append("impl harness::OneofPut for %s {\n    fn put(&self, m: &mut PMsg) {\n        match self {\n%s\n        }\n    }\n}" % (ep, arms))
+        out.append("impl harness::ToPMsg for %s {\n    fn to_pmsg(&self) -> PMsg {\n        let mut m = PMsg::default();\n        %s\n        m\n    }\n}" % (mp, "\n        ".join(body)))
+        out.append("impl harness::Scalar for %s { fn ps(&self) -> PS { PS::M(harness::ToPMsg::to_pmsg(self)) } }" % mp)
+    return "\n".join(out)
+
+
+PB_MAIN = """#![allow(warnings)]
+#[global_allocator]
+static ALLOC: vcore::alloc::Counting = vcore::alloc::Counting;
+
+#[path = "/verif/engines/vpbrun/src/harness.rs"]
+mod harness;
+
+pub mod gen {
+%(mods)s
+}
+
+mod access {
+    use super::harness::{self, ops, Scalar};
+    use vcore::pbref::{PMsg, PS, PF};
+%(access)s
+}
+
+fn main() {
+    let mut entries = Vec::new();
+%(entries)s
+    harness::main(harness::Harness { entries, schema_path: "%(schema)s", cfg: "%(cfg)s" });
+}
+"""
+
+
+def build_proto_sem(cfg="d0"):
+    """Builds the protobuf semantic corpus harness; cfg d0/d1 = feature pb-encode-default-value off/on."""
+    vgen = ensure_vgen()
+    base = os.path.join(WORK, "gen", "psem")
+    idl_dir, out_dir = os.path.join(base, "idl"), os.path.join(base, "out")
+    crate_dir = os.path.join(base, "crate_" + cfg)
+    docs = corpus.proto_sem()
+    schema = corpus.write_proto_corpus(docs, idl_dir)
+    info = {"builder_failures": [], "documents": len(docs), "cfg": cfg}
+
+    def one(d):
+        out = os.path.join(out_dir, d.name, "gen.rs")
+        rc, log = run_builder(vgen, "proto", [os.path.join(idl_dir, d.name, d.name + ".proto")], out, [], include_dirs=[os.path.join(idl_dir, d.name)])
+        return d, rc, log, out
+
+    with ThreadPoolExecutor(max_workers=vlib.NCPU) as ex:
+        results = list(ex.map(one, docs))
+    modules, access, entries = [], [], []
+    packages = sorted({d.package for d in docs} | {"imp.dep"})
+    for (d, rc, log, out), sd in zip(results, schema["docs"]):
+        if rc != 0:
+            msg = [l for l in log.splitlines() if "panicked" in l or "rror" in l][:3]
+            info["builder_failures"].append({"doc": d.name, "rc": rc, "msg": " | ".join(msg)[:300]})
+            continue
+        modules.append((d.name, out))
+        access.append(pb_access_src(d.name, sd, packages))
+        for m in sd["messages"]:
+            pk = max([p for p in packages if m["fq"].startswith(p + ".")], key=len)
+            entries.append('    entries.push(harness::entry::<%s>("%s", "%s", "%s", "%s"));' % (pb_rust_path(d.name, pk, m["fq"]), d.name, cfg, m["name"], m["fq"]))
+    if info["builder_failures"]:
+        print(json.dumps(info["builder_failures"], indent=1))
+        die("the generator fails on the protobuf semantic corpus (C14 reports generator failures; this harness needs every document)")
+    os.makedirs(os.path.join(crate_dir, "src"), exist_ok=True)
+    os.makedirs(os.path.join(crate_dir, ".cargo"), exist_ok=True)
+    feats = ', features = ["pb-encode-default-value"]' if cfg == "d1" else ""
+    write_if_changed(os.path.join(crate_dir, "Cargo.toml"), CARGO_TOML % {"name": "psem_" + cfg, "features": feats})
+    write_if_changed(os.path.join(crate_dir, ".cargo", "config.toml"), "[net]\noffline = true\n[build]\ntarget-dir = \"%s\"\n" % GEN_TARGET)
+    lock = os.path.join(crate_dir, "Cargo.lock")
+    if not os.path.exists(lock):
+        shutil.copy("/repo/Cargo.lock", lock)
+    mods = "\n".join('    pub mod %s { include!("%s"); }' % (m, p) for m, p in modules)
+    main = PB_MAIN % {"mods": mods, "access": "\n".join(access), "entries": "\n".join(entries), "schema": os.path.join(idl_dir, "schema.json"), "cfg": cfg}
+    write_if_changed(os.path.join(crate_dir, "src", "main.rs"), main)
+    rc, out, secs = cargo_build(crate_dir, "psem_" + cfg)
+    info["cargo_s"] = round(secs, 2)
+    if rc != 0:
+        print(out[-6000:])
+        die("protobuf harness crate does not build")
+    info["modules"] = len(modules)
+    info["types"] = len(entries)
+    return {"bin": os.path.join(GEN_TARGET, "debug", "genharness_psem_" + cfg), "info": info}
+
+
 if __name__ == "__main__":
-    r = build_thrift_sem()
+    r = build_proto_sem(sys.argv[2]) if len(sys.argv) > 2 and sys.argv[1] == "pb" else build_thrift_sem()
     print(json.dumps(r["info"], indent=1))
